@@ -19,6 +19,45 @@ import (
 	"verifharness/store"
 )
 
+// stickyReader passes r through, except that length bytes starting at offset
+// from are all b.
+type stickyReader struct {
+	r            io.Reader
+	from, length int
+	b            byte
+	pos          int
+}
+
+func (s *stickyReader) Read(p []byte) (int, error) {
+	n, err := s.r.Read(p)
+	for i := 0; i < n; i++ {
+		if s.pos >= s.from && s.pos < s.from+s.length {
+			p[i] = s.b
+		}
+		s.pos++
+	}
+	return n, err
+}
+
+// failingReader delivers left bytes of r and then fails with err.
+type failingReader struct {
+	r    io.Reader
+	left int
+	err  error
+}
+
+func (f *failingReader) Read(p []byte) (int, error) {
+	if f.left <= 0 {
+		return 0, f.err
+	}
+	if len(p) > f.left {
+		p = p[:f.left]
+	}
+	n, err := f.r.Read(p)
+	f.left -= n
+	return n, err
+}
+
 func lastSeg(p string) string {
 	if i := strings.LastIndex(p, "/"); i >= 0 {
 		return p[i+1:]
@@ -144,9 +183,12 @@ func TestC19(t *testing.T) {
 			if r.Quick() && sz > 64<<10 && s > 0 {
 				continue
 			}
-			gens = append(gens, g{"UnixFSFile", sz, s}, g{"UnixFSFile-shortsource", sz, s}, g{"UnixFSDirectory", sz, s}, g{"UnixFSDirectory-dirname", sz, s}, g{"UnixFSDirectory-sharded", sz, s}, g{"UnixFSDirectory-custom", sz, s},
+			gens = append(gens, g{"UnixFSFile", sz, s}, g{"UnixFSFile-shortsource", sz, s}, g{"UnixFSFile-failingsource", sz, s}, g{"UnixFSDirectory", sz, s}, g{"UnixFSDirectory-dirname", sz, s}, g{"UnixFSDirectory-sharded", sz, s}, g{"UnixFSDirectory-custom", sz, s},
 				g{"GenerateDirectory", sz, s}, g{"GenerateDirectory-sharded", sz, s}, g{"GenerateDirectoryFrom", sz, s}, g{"BuildDirectory", sz, s}, g{"WrapContent-exclusive", sz, s}, g{"WrapContent", sz, s})
 		}
+	}
+	for s := 0; s < nseeds; s++ {
+		gens = append(gens, g{"UnixFSDirectory-stickysource", 4 << 10, s}, g{"UnixFSDirectory-stickysource", 20000, s})
 	}
 	for _, gg := range gens {
 		gg := gg
@@ -161,11 +203,23 @@ func TestC19(t *testing.T) {
 			var err error
 			pathRule := false
 			sharded := false
+			sourceFailed := false
 			ok := c.Guard(gg.Name, func() {
 				switch gg.Name {
 				case "UnixFSFile":
 					chunker := []string{"size-256144", "size-1000", "size-64"}[gg.Var%3]
 					de, err = testutil.UnixFSFile(*ls, gg.Size, testutil.WithRandReader(rnd), testutil.WithChunker(chunker))
+				case "UnixFSFile-failingsource":
+					// a source that fails before the target size is reached; an error from the generator is
+					// fine, a description of bytes that were not stored is not
+					have := []int{0, 1, gg.Size / 3, gg.Size - 1, 64, 100}[gg.Var%6]
+					ferr := []error{fmt.Errorf("random source closed: %w", io.EOF), io.ErrUnexpectedEOF, store.ErrInjected}[gg.Var%3]
+					de, err = testutil.UnixFSFile(*ls, gg.Size, testutil.WithRandReader(&failingReader{r: rnd, left: have, err: ferr}), testutil.WithChunker([]string{"size-1000", "size-64"}[gg.Var%2]))
+					if err != nil {
+						c.Count("generator_errors_on_failing_sources", 1)
+						err = nil
+						sourceFailed = true
+					}
 				case "UnixFSFile-shortsource":
 					// a random source that runs dry before the target size is reached (also at once)
 					have := []int{0, 1, gg.Size / 3, gg.Size - 1}[gg.Var%4]
@@ -173,6 +227,11 @@ func TestC19(t *testing.T) {
 					if err == nil && len(de.Content) > have {
 						c.Violation("C19|UnixFSFile-shortsource|content-longer-than-source", "UnixFSFile(size %d) on a source of %d bytes describes %d content bytes", gg.Size, have, len(de.Content))
 					}
+				case "UnixFSDirectory-stickysource":
+					// a random source that, for a stretch, keeps delivering one and the same byte (and so
+					// proposes one and the same name over and over) before it moves on
+					pathRule = true
+					de, err = testutil.UnixFSDirectory(*ls, gg.Size, testutil.WithRandReader(&stickyReader{r: rnd, from: 40 + 97*gg.Var, length: 6000, b: byte(2 + gg.Var%4)}))
 				case "UnixFSDirectory":
 					pathRule = true
 					de, err = testutil.UnixFSDirectory(*ls, gg.Size, testutil.WithRandReader(rnd))
@@ -270,7 +329,7 @@ func TestC19(t *testing.T) {
 					}
 				}
 			})
-			if !ok {
+			if !ok || sourceFailed {
 				return
 			}
 			if err != nil {
